@@ -8,6 +8,7 @@ import CdnsVerif.Driver.Exm
 import CdnsVerif.Driver.Tbl
 import CdnsVerif.Driver.Fs
 import CdnsVerif.Driver.Mrg
+import CdnsVerif.Driver.Sch
 open CdnsVerif.Driver
 
 def dispatch (line : String) : String :=
@@ -22,6 +23,7 @@ def dispatch (line : String) : String :=
   | "tbl" :: rest => Tbl.handle rest
   | "fs" :: rest => FsD.handle rest
   | "mrg" :: rest => Mrg.handle rest
+  | "sch" :: rest => Sch.handle rest
   | _ => "bad-request"
 
 partial def loop (h : IO.FS.Stream) (out : IO.FS.Stream) : IO Unit := do
